@@ -57,9 +57,6 @@ Section Multi.
     destruct (hstart oc _) as [u1 [ph t| |x]]; [apply conn_iter_run; lia|apply conn_iter_done|apply conn_iter_done].
   Qed.
 
-  Definition accept (l : list (nat * list hact * C * speer)) : list (@conn P C) :=
-    map (fun x => match x with (oc, acts0, c, o) => CNew oc acts0 c o end) l.
-
   Lemma multi_result : forall l sch a oc acts0 c o,
       nth_error l a = Some (oc, acts0, c, o) ->
       S (S (S (length acts0))) < count_occ Nat.eq_dec sch a ->
